@@ -120,8 +120,17 @@ class DumperBase(DataStreamProcessor):
 
         return schema_validator(incoming, resource, on_error=handler, **options)
 
+    @staticmethod
+    def failure_recorder(iterator, failures):
+        try:
+            yield from iterator
+        except Exception as e:
+            failures.append(e)
+            raise
+
     def process_resources(self, resources):
         self.initialize()
+        failures = []
 
         resource: ResourceWrapper = None
         for resource in resources:
@@ -131,10 +140,13 @@ class DumperBase(DataStreamProcessor):
                             self.validator(resource)
                         )
             )
-            ret = self.row_counter(resource, ret)
+            ret = self.failure_recorder(self.row_counter(resource, ret), failures)
             yield ret
             # rows a later step did not ask for are part of the dump all the same
             collections.deque(ret, maxlen=0)
+            if failures:
+                # whatever a later step did with this error, the dump is not complete
+                raise failures[0]
 
         # Calculate datapackage hash
         if self.datapackage_hash:
